@@ -46,7 +46,7 @@ for d in sorted(glob.glob("/verif/seeded_pending/seed-*/m*")):
         src = open(demo).read()
         pk = re.search(r"^package (\w+)", src, re.M).group(1)
         m = {"capnp": ".", "capnp_test": ".", "rpc": "rpc", "rpc_test": "rpc", "packed": "internal/packed", "packed_test": "internal/packed", "text": "encoding/text", "text_test": "encoding/text",
-             "pogs": "pogs", "pogs_test": "pogs", "main": "capnpc-go", "strquote": "internal/strquote", "server": "server", "server_test": "server"}
+             "pogs": "pogs", "pogs_test": "pogs", "main": "capnpc-go", "strquote": "internal/strquote", "server": "server", "server_test": "server", "schemas": "schemas", "schemas_test": "schemas"}
         demodir = m.get(pk, ".")
     rc, o = sh("go build ./...", cwd=W)
     out["builds"] = rc == 0
